@@ -47,13 +47,34 @@ def _norm(sql):
 
 import re as _re
 
-_SCHEMA = {
-    # table: (columns, primary key column, rowid-alias (INTEGER PRIMARY KEY), autoincrement, unique columns)
-    "local_files": (["path", "size", "mtime", "ctime", "fileid"], "path", False, False, []),
-    "caps": (["fileid", "filecap"], "fileid", True, True, ["filecap"]),
-    "last_upload": (["fileid", "last_uploaded", "last_checked"], "fileid", True, False, []),
-    "directories": (["dirhash", "dircap", "last_uploaded", "last_checked"], "dirhash", False, False, []),
-}
+def _parse_schema(sql_text):
+    """table -> (columns, primary key column, rowid alias?, AUTOINCREMENT?, UNIQUE columns), read from the module's own CREATE TABLE text"""
+    out = {}
+    text = "\n".join(ln.split("--")[0] for ln in sql_text.splitlines())
+    for m in _re.finditer(r"CREATE TABLE (\w+)\s*\((.*?)\);", text, _re.S | _re.I):
+        table, body = m.group(1), m.group(2)
+        cols, pk, alias, auto, uniques = [], None, False, False, []
+        for part in body.split(","):
+            words = part.split()
+            if not words:
+                continue
+            name = words[0]
+            cols.append(name)
+            up = part.upper()
+            if "PRIMARY KEY" in up:
+                pk = name
+                alias = len(words) > 1 and words[1].upper() == "INTEGER"
+                auto = "AUTOINCREMENT" in up
+            elif "UNIQUE" in up:
+                uniques.append(name)
+        out[table] = (cols, pk, alias, auto, uniques)
+    return out
+
+
+_SCHEMA = _parse_schema(BD.SCHEMA_v2)
+for _t in ("local_files", "caps", "last_upload", "directories"):
+    if _t not in _SCHEMA or _SCHEMA[_t][1] is None:
+        raise hlib.HarnessError("cannot read table %s from backupdb.SCHEMA_v2" % _t)
 
 
 class FakeDB(object):
@@ -61,7 +82,9 @@ class FakeDB(object):
     connection and cursor in one: a small in-memory engine for the SQL subset backupdb.py uses
     (INSERT [OR IGNORE|OR REPLACE] / REPLACE / UPDATE..WHERE c=? / DELETE..WHERE c=? / SELECT cols FROM t[,t2] WHERE c=? [AND c2=?]),
     with sqlite's constraint behaviour (PRIMARY KEY / UNIQUE conflicts raise IntegrityError, INTEGER PRIMARY KEY is the rowid and is
-    assigned max+1 when omitted) and sqlite's lastrowid semantics (set by a successful INSERT/REPLACE, untouched by an ignored one).
+    assigned max+1 when omitted - with AUTOINCREMENT: never an id that was ever used, without: ids of deleted rows are handed out
+    again) and sqlite's lastrowid semantics (set by a successful INSERT/REPLACE, untouched by an ignored one).  The table definitions
+    are read from backupdb.SCHEMA_v2; the engine is compared with the real sqlite3 on a fixed script at import (_selftest_engine).
     """
 
     def __init__(self):
@@ -71,6 +94,7 @@ class FakeDB(object):
         self.dirty = False
         self.lastrowid = 0
         self.rowcount = -1
+        self.seq = dict((t, 0) for t in _SCHEMA)        # AUTOINCREMENT high-water marks (sqlite_sequence)
 
     # ---- convenient views used by the oracles -------------------------------------------------
     @property
@@ -117,12 +141,15 @@ class FakeDB(object):
         for r in self.rows[table]:
             if r["_rowid"] > m:
                 m = r["_rowid"]
+        if _SCHEMA[table][3] and self.seq[table] > m:
+            m = self.seq[table]
         return m + 1
 
     def _store(self, table, row, on_conflict):
         (cols, pk, alias, _auto, uniques) = _SCHEMA[table]
         if alias and row.get(pk) is None:
             row[pk] = self._next_rowid(table)
+        new_rowid = row[pk] if alias else self._next_rowid(table)     # allocated before a REPLACE removes the old row (as sqlite does)
         clash = []
         for r in self.rows[table]:
             for c in [pk] + list(uniques):
@@ -131,14 +158,19 @@ class FakeDB(object):
                     break
         if clash:
             if on_conflict == "ignore":
+                # sqlite: an ignored INSERT on an AUTOINCREMENT table has already consumed the id it allocated
+                if _SCHEMA[table][3] and alias and row[pk] > self.seq[table]:
+                    self.seq[table] = row[pk]
                 self.rowcount = 0
                 return False
             if on_conflict == "abort":
                 raise IntegrityError("UNIQUE constraint failed: %s" % table)
             for r in clash:
                 self.rows[table].remove(r)
-        row["_rowid"] = row[pk] if alias else self._next_rowid(table)
+        row["_rowid"] = new_rowid
         self.rows[table].append(row)
+        if row["_rowid"] > self.seq[table]:
+            self.seq[table] = row["_rowid"]
         self.lastrowid = row["_rowid"]
         self.rowcount = 1
         self.dirty = True
@@ -219,6 +251,44 @@ class FakeDB(object):
                             self.res.append(tuple(both[split(c, t1)[0]][split(c, t1)[1]] for c in cols))
             return self
         raise hlib.HarnessError("SQL statement not modelled: %r" % (q,))
+
+
+def _selftest_engine():
+    """the table model against the real sqlite3 (same schema text) on a fixed script: results and lastrowid after every statement"""
+    import sqlite3
+    real = sqlite3.connect(":memory:")
+    real.executescript(BD.SCHEMA_v2)
+    rc = real.cursor()
+    fake = FakeDB()
+    script = [
+        ("INSERT INTO caps (filecap) VALUES (?)", ("c1",)), ("INSERT INTO caps (filecap) VALUES (?)", ("c2",)),
+        ("INSERT INTO last_upload VALUES (?,?,?)", (2, 5, 6)), ("INSERT INTO local_files VALUES (?,?,?,?,?)", ("/p", 1, 2, 3, 2)),
+        ("INSERT OR IGNORE INTO caps (filecap) VALUES (?)", ("c1",)), ("SELECT fileid FROM caps WHERE filecap=?", ("c1",)),
+        ("INSERT INTO caps (filecap) VALUES (?)", ("c2",)),
+        ("SELECT caps.filecap, last_upload.last_checked FROM caps,last_upload WHERE caps.fileid=? AND last_upload.fileid=?", (2, 2)),
+        ("DELETE FROM caps WHERE fileid=?", (2,)), ("INSERT INTO caps (filecap) VALUES (?)", ("c3",)), ("SELECT fileid FROM caps WHERE filecap=?", ("c3",)),
+        ("UPDATE local_files SET size=?, mtime=?, ctime=?, fileid=? WHERE path=?", (9, 8, 7, 1, "/p")), ("SELECT size,mtime,ctime,fileid FROM local_files WHERE path=?", ("/p",)),
+        ("INSERT INTO local_files VALUES (?,?,?,?,?)", ("/p", 1, 2, 3, 2)), ("REPLACE INTO directories VALUES (?,?,?,?)", ("h", "d1", 1, 1)),
+        ("REPLACE INTO directories VALUES (?,?,?,?)", ("h", "d2", 2, 2)), ("SELECT dircap, last_checked FROM directories WHERE dirhash=?", ("h",)),
+        ("UPDATE directories SET last_checked=? WHERE dircap=?", (7, "d2")), ("SELECT dircap, last_checked FROM directories WHERE dirhash=?", ("h",)),
+        ("DELETE FROM local_files WHERE path=?", ("/p",)), ("SELECT size,mtime,ctime,fileid FROM local_files WHERE path=?", ("/p",)),
+        ("INSERT INTO last_upload VALUES (?,?,?)", (2, 1, 1)), ("UPDATE last_upload SET last_checked=? WHERE fileid=?", (3, 2)),
+    ]
+    for (i, (sql, params)) in enumerate(script):
+        outs = []
+        for (cur, errs) in ((rc, (sqlite3.IntegrityError, sqlite3.OperationalError)), (fake, (IntegrityError, OperationalError))):
+            try:
+                cur.execute(sql, params)
+                rows = cur.fetchall() if sql.startswith("SELECT") else None
+                outs.append(("ok", [tuple(r) for r in rows] if rows is not None else None, cur.lastrowid if sql.startswith(("INSERT", "REPLACE")) else None))
+            except errs:
+                outs.append(("integrity-error", None, None))
+        if outs[0] != outs[1]:
+            raise hlib.HarnessError("table model differs from sqlite3 at statement %d %r: sqlite %r, model %r" % (i, sql, outs[0], outs[1]))
+    return len(script)
+
+
+N_ENGINE_STEPS = _selftest_engine()
 
 
 class _Env(object):
@@ -337,10 +407,10 @@ def h_check_file(has_row: bool, s_size: int, s_mtime: int, s_ctime: int, has_cap
 
 
 def h_upload_then_check(st: int, s_size: int, s_mtime: int, s_ctime: int, newcap: int, u_size: int, u_mtime: int, u_ctime: int,
-                        d_size: int, d_mtime: int, d_ctime: int, use_ts2: bool, other_path: bool) -> bool:
+                        d_size: int, d_mtime: int, d_ctime: int, use_ts2: bool, other_path: bool, m_size: int, m_mtime: int) -> bool:
     """
     pre: 0 <= st <= 2 and 0 <= newcap <= 2
-    pre: s_size >= 0 and u_size >= 0 and u_size + d_size >= 0
+    pre: s_size >= 0 and u_size >= 0 and u_size + d_size >= 0 and u_size + m_size >= 0
     post: _ == True
     """
     # pre-state: 0 = no record for the path, 1 = complete record (cap-one), 2 = record whose cap was forgotten
@@ -352,13 +422,15 @@ def h_upload_then_check(st: int, s_size: int, s_mtime: int, s_ctime: int, newcap
     bdb = BD.BackupDB_v2(SQLMOD, db)
     r = bdb.check_file(PATH_A)
     cap = pick(CAPS, newcap)
-    # the tool uploads (whatever the database said) and records the new cap
+    # the tool uploads the bytes it read (whatever the database said); meanwhile the file may be modified again (m_size, m_mtime);
+    # the record must describe what was uploaded, i.e. the stat check_file saw
+    _Env.stats = {PATH_A: (u_size + m_size, u_mtime + m_mtime, u_ctime + m_mtime), PATH_B: (s_size, s_mtime, s_ctime)}
     r.did_upload(cap)
     if db.dirty:
         return "did_upload not committed"
     row = db.local_files.get(PATH_A)
     if row is None or row[:3] != [u_size, u_mtime, u_ctime] or db.caps.get(row[3]) != cap:
-        return "upload record does not hold the file's size/mtime/ctime and the new cap"
+        return "upload record does not hold the size/mtime/ctime observed by check_file and the new cap"
     if row[3] not in db.last_upload or db.last_upload[row[3]] != [now, now]:
         return "last_upload not stamped with the upload time"
     if len(set(db.caps.values())) != len(db.caps):
@@ -587,4 +659,40 @@ def h_directory_pairs(n1: int, c1: int, n2: int, c2: int, extra: bool) -> bool:
             return "identical contents must find the recorded directory"
     elif r2.was_created() is not False:
         return "directory cap reused for different contents: %r vs %r" % (first, second)
+    return True
+
+
+def h_forgotten_cap(prune_lu: bool, newcap: int, n_new: int, b_size: int, b_mtime: int, b_ctime: int, touch_b: bool) -> bool:
+    """
+    pre: 0 <= newcap <= 2 and 1 <= n_new <= 2 and b_size >= 0
+    post: _ == True
+    """
+    # b.txt was uploaded (its cap has the highest fileid), then its caps row is lost / pruned ("we somehow forgot where we put the file");
+    # before b.txt is looked at again other files are uploaded. b.txt must then be answered with False (upload again) - or its own cap -
+    # never with another file's cap.
+    db = FakeDB()
+    _Env.now, _Env.draw = T0, 0.25
+    _Env.stats = {PATH_A: (1, 2, 3), PATH_B: (b_size, b_mtime, b_ctime), PATH_C: (4, 5, 6)}
+    bdb = BD.BackupDB_v2(SQLMOD, db)
+    own = b"URI:CHK:b-own-cap"
+    bdb.check_file(PATH_A).did_upload(CAPS[0])
+    bdb.check_file(PATH_B).did_upload(own)
+    fid_b = db.local_files[PATH_B][3]
+    if db.caps.get(fid_b) != own:
+        return "upload record"
+    db.execute("DELETE FROM caps WHERE fileid=?", (fid_b,))
+    if prune_lu:
+        db.execute("DELETE FROM last_upload WHERE fileid=?", (fid_b,))
+    db.commit()
+    # the next run uploads one or two other files with caps the database has (not) seen
+    bdb.check_file(PATH_C).did_upload(pick(CAPS, newcap))
+    if n_new == 2:
+        if touch_b:
+            _Env.stats[PATH_A] = (7, 8, 9)
+        bdb.check_file(PATH_A).did_upload(b"URI:CHK:another-new-cap")
+    got = bdb.check_file(PATH_B).was_uploaded()
+    if got is not False and got != own:
+        return "b.txt answered with another file's cap %r" % (got,)
+    if got is not False:
+        return "the cap of b.txt was forgotten: it must be uploaded again"
     return True
